@@ -675,6 +675,8 @@ func Fixed() []*Spec {
 	add(Expr("expr_std", []PrecLine{{"left", []string{"'+'", "'-'"}}, {"left", []string{"'*'"}}, {"right", []string{"UMINUS"}}}, []byte{'+', '-', '*'}, true))
 	add(Expr("expr_right", []PrecLine{{"left", []string{"'+'"}}, {"right", []string{"'^'"}}}, []byte{'+', '^'}, false))
 	add(Expr("expr_nonassoc", []PrecLine{{"nonassoc", []string{"'<'"}}, {"left", []string{"'+'"}}}, []byte{'<', '+'}, false))
+	// the %nonassoc level on top: the state after `E '<' E` has reductions and the error cells of the level only
+	add(Expr("expr_nonassoc_top", []PrecLine{{"left", []string{"'+'", "'-'"}}, {"left", []string{"'*'"}}, {"nonassoc", []string{"'<'", "'>'"}}}, []byte{'+', '-', '*', '<', '>'}, false))
 
 	// %precedence (a level without associativity) for the unary operator
 	add(Expr("expr_precedence", []PrecLine{{"left", []string{"'+'", "'-'"}}, {"left", []string{"'*'"}}, {"precedence", []string{"UMINUS"}}}, []byte{'+', '-', '*'}, true))
@@ -1007,6 +1009,10 @@ func Fixed() []*Spec {
 			Toks:  toks,
 			Rules: rules("s: A n B C D E F G H I J m", "m: Y", "k: K1 | K2 | K3 | K4 | K5 | K6 | K7 | K8 | K9", "n: X k")})
 	}
+	// a rule of seventeen symbols (dot positions beyond 15) next to rules that follow it in the file
+	add(&Spec{Name: "long17", Tags: []string{"lalr1"}, MinN: 4,
+		Toks:  []Tok{named("A", 490), named("B", 491), named("C", 492)},
+		Rules: rules("s: body", "body: A A A A A A A A A A A A A A A A tail", "tail: B | C tail")})
 	// a mid-rule action (an action body between two right-hand-side symbols)
 	{
 		sp := &Spec{Name: "midrule_action", Tags: []string{"lalr1", "go-only-actions"},
